@@ -1257,7 +1257,7 @@ func (ex *Exec) visit(fr *frame, instr ssa.Instruction) continuation {
 		fr.set(in, ex.makeSlice(in.Type(), fr.getT(in.Len), fr.getT(in.Cap)))
 	case *ssa.MakeMap:
 		mt := in.Type().Underlying().(*types.Map)
-		fr.set(in, &MapV{keyT: mt.Key(), valT: mt.Elem()})
+		fr.set(in, &MapV{keyT: mt.Key(), valT: mt.Elem(), tracked: isCodeUnderTest(fr.fn) && !strings.Contains(ex.prog.Fset.Position(in.Pos()).Filename, "zz_verif")})
 	case *ssa.Range:
 		fr.set(in, ex.rangeIter(fr.get(in.X), in.X.Type()))
 	case *ssa.Next:
@@ -1305,6 +1305,7 @@ func (ex *Exec) visit(fr *frame, instr ssa.Instruction) continuation {
 		if m == nil {
 			ex.goPanicNow("assignment to entry in nil map")
 		}
+		ex.mapAccessCheck(m, true)
 		ex.mapUpdate(m, fr.get(in.Key), ex.copyVal(fr.get(in.Value)))
 	case *ssa.TypeAssert:
 		fr.set(in, ex.typeAssert(in, fr.get(in.X)))
@@ -1397,4 +1398,26 @@ func (ex *Exec) enterBlock(fr *frame) {
 func (ex *Exec) callFnNoIntrinsic(caller *frame, fn *ssa.Function, args []Value) Value {
 	ex.noIntr = fn
 	return ex.callFn(caller, fn, args, nil)
+}
+
+
+// isCodeUnderTest: a function of the repository itself (not a harness function, not a harness support package).
+func isCodeUnderTest(fn *ssa.Function) bool {
+	for f := fn; f != nil; f = f.Parent() {
+		if strings.HasPrefix(f.Name(), "verif") || strings.HasPrefix(f.Name(), "Verif") {
+			return false
+		}
+	}
+	pkg := fn.Pkg
+	if pkg == nil && fn.Origin() != nil {
+		pkg = fn.Origin().Pkg
+	}
+	for f := fn; pkg == nil && f.Parent() != nil; f = f.Parent() {
+		pkg = f.Parent().Pkg
+	}
+	if pkg == nil {
+		return false
+	}
+	path := pkg.Pkg.Path()
+	return strings.HasPrefix(path, "github.com/relex/slog-agent") && !strings.Contains(path, "/zz_verif")
 }
